@@ -32,6 +32,7 @@ type Program struct {
 	parents map[ast.Node]ast.Node
 	funcOf  map[*ast.FuncDecl]*packages.Package
 	ssa     *ssaProgram
+	sums    *Summaries
 }
 
 // CheckerError is a failure of the checker itself (exit 2), not a verdict.
